@@ -1,0 +1,15 @@
+//go:build verif
+
+package diff
+
+import (
+	gitdiff "github.com/go-git/go-git/v5/plumbing/format/diff"
+)
+
+// Verification hooks (build tag verif): thin exported wrappers, no behaviour of their own.
+
+// VerifGetLineChange exposes getLineChange.
+func VerifGetLineChange(fp gitdiff.FilePatch) []LineChange { return getLineChange(fp) }
+
+// VerifFilterValid exposes filterValidFileChanges.
+func VerifFilterValid(fcs []*FileChange) []*FileChange { return filterValidFileChanges(fcs) }
